@@ -539,3 +539,26 @@ def same_instant_transfer_chain(rng: random.Random, asset: str = "AAA") -> Dict[
     if rng.random() < 0.5:
         b.dispose(t + timedelta(days=rng.randint(1, 30)), 1, rng.randint(50, 500), ex=x[0])
     return b.done(rng, shuffle=False)
+
+
+def method_switch_in_an_empty_year(rng: random.Random) -> Tuple[Dict[str, Any], Dict[int, str]]:
+    """The configured method changes in a year in which the asset has no transaction at all; a partially consumed lot is carried
+    across, the new method prefers another lot for the next sale, and more lots are acquired after that sale."""
+    m1, m2 = rng.sample(list(METHODS), 2)
+    year = rng.randint(2015, 2020)
+    b = HB()
+    t = T(year, rng.randint(1, 5), rng.randint(1, 28))
+    for price in rng.sample([40, 80, 120, 160, 200, 240], 3):
+        b.acquire(t, rng.choice((4, 6, 10)), price)
+        t += timedelta(days=rng.randint(1, 20))
+    b.dispose(T(year, rng.randint(9, 12), rng.randint(1, 28)), rng.choice((1, 3, 5)), 300, ttype=rng.choice(OUT_TYPES))
+    gap = rng.choice((1, 1, 2))  # whole calendar years without any row
+    b.dispose(T(year + gap + 1, rng.randint(1, 6), rng.randint(1, 28)), rng.choice((1, 2, 4)), 320, ttype=rng.choice(OUT_TYPES))
+    t = T(year + gap + 1, rng.randint(7, 12), rng.randint(1, 28))
+    for _ in range(rng.randint(1, 3)):
+        b.acquire(t, rng.choice((2, 8)), rng.choice((10, 500, 90)))
+        t += timedelta(days=rng.randint(1, 40))
+    if rng.random() < 0.5:
+        b.dispose(t + timedelta(days=30), 1, 330)
+    schedule = {1970: m1, year + rng.randint(1, gap): m2}
+    return b.done(rng, shuffle=rng.random() < 0.5), schedule
